@@ -677,6 +677,10 @@ type State struct {
 	epoch  string
 	m      map[string]string // comp base -> symbol/term
 	locals map[string]string // local alloc id -> value term
+	// join of states with different epochs: components not (yet) in m are defined lazily as the ite of
+	// the predecessors' values, so that a component first touched after the join is still related to them
+	joinOf  []*State
+	joinPCs []string
 }
 
 func (g *Gen) entryState() *State {
@@ -684,7 +688,7 @@ func (g *Gen) entryState() *State {
 }
 
 func (s *State) clone() *State {
-	n := &State{epoch: s.epoch, m: make(map[string]string, len(s.m)), locals: make(map[string]string, len(s.locals))}
+	n := &State{epoch: s.epoch, m: make(map[string]string, len(s.m)), locals: make(map[string]string, len(s.locals)), joinOf: s.joinOf, joinPCs: s.joinPCs}
 	for k, v := range s.m {
 		n.m[k] = v
 	}
@@ -697,6 +701,30 @@ func (s *State) clone() *State {
 func (g *Gen) get(s *State, base string) string {
 	if t, ok := s.m[base]; ok {
 		return t
+	}
+	if len(s.joinOf) > 0 {
+		first := g.get(s.joinOf[0], base)
+		same := true
+		for _, p := range s.joinOf[1:] {
+			if g.get(p, base) != first {
+				same = false
+			}
+		}
+		if same {
+			s.m[base] = first
+			return first
+		}
+		term := g.get(s.joinOf[len(s.joinOf)-1], base)
+		for i := len(s.joinOf) - 2; i >= 0; i-- {
+			term = fmt.Sprintf("(ite %s %s %s)", s.joinPCs[i], g.get(s.joinOf[i], base), term)
+		}
+		sym := g.fresh(base)
+		g.decls = append(g.decls, fmt.Sprintf("(declare-const %s %s)", sym, g.comps[base]))
+		// definitional and about earlier program points: safe to state as a global fact
+		g.facts = append(g.facts, Fact{}) // placeholder keeps indices monotone
+		g.facts[len(g.facts)-1] = Fact{fmt.Sprintf("(= %s %s)", sym, term)}
+		s.m[base] = sym
+		return sym
 	}
 	return g.compSym(base, "e"+s.epoch)
 }
@@ -728,6 +756,7 @@ func (g *Gen) havocAll(s *State) {
 	for k := range s.m {
 		delete(s.m, k)
 	}
+	s.joinOf, s.joinPCs = nil, nil
 	g.nfresh++
 	s.epoch = fmt.Sprintf("h%d", g.nfresh)
 }
